@@ -38,6 +38,8 @@ def render(expr, style):
         if isinstance(node, ast.Set):
             return "set([%s])" % ", ".join(ast.unparse(e) for e in node.elts)
         if isinstance(node, ast.Dict):
+            if len({ast.unparse(k) for k in node.keys}) != len(node.keys):
+                raise ValueError("repeated key: no constructor spelling")
             if node.keys and all(isinstance(k, ast.Constant) and isinstance(k.value, str) and k.value.isidentifier() for k in node.keys):
                 return "dict(%s)" % ", ".join("%s=%s" % (k.value, ast.unparse(v)) for k, v in zip(node.keys, node.values))
             return "dict([%s])" % ", ".join("(%s, %s)" % (ast.unparse(k), ast.unparse(v)) for k, v in zip(node.keys, node.values))
